@@ -65,7 +65,9 @@ type Ctx struct {
 
 func NewCtx(prop, tier, repo, verif string, seed int64) *Ctx {
 	return &Ctx{Prop: prop, Tier: tier, Repo: repo, VerifDir: verif, Seed: seed, start: time.Now(),
-		mods: map[string]*Module{}, rules: map[string]*RuleInfo{}, analysed: map[string]bool{}, extra: map[string]interface{}{}}
+		mods: map[string]*Module{}, rules: map[string]*RuleInfo{}, analysed: map[string]bool{}, extra: map[string]interface{}{},
+		assumptions: []string{"go/types and go/ssa (x/tools v0.29.0) represent the program faithfully; the analysed build configuration (no build tags, GOARCH of the host) is the supported one"},
+		notes: []string{}, fatal: []string{}}
 }
 
 // Mod loads (once per run) a module of the repository.
